@@ -43,6 +43,9 @@ CHECKS = {
  "C11": dict(technique="model-based PBT: schema spec -> SDL with drawn order / extension split -> build_schema -> extracted structure must equal the spec; 21 labelled invalid variants must raise a GraphQLError",
              text="Generated specs are rendered to SDL with a drawn definition order and members split over extend blocks placed anywhere; the built schema's observable structure (members in merged order, wrappers, coerced defaults, descriptions, deprecations, directives, roots, closedness) must equal the spec for every order, with ignore_extensions and additional_types; invalid documents must be rejected with the library's own error hierarchy.",
              note="Trusted: vlib/ref/schemastruct.py (expected/extract), vlib/gen/sdlsplit.py.", ref="3/C11"),
+ "C12": dict(technique="round-trip PBT schema -> SDL -> schema with a model of the printed text, history sequences of print calls, and differential against a fresh interpreter",
+             text="SDL-built and code-built schemas from specs are printed under 7 option sets in drawn call histories; the text must parse, rebuild to the spec's structure, print back identically, carry exactly the expected directive applications per element, equal every earlier output for the same (schema, options) and the output of a fresh interpreter process.",
+             note="Trusted: vlib/ref/schemastruct.py, reference parser for reading the printed text, subprocess worker (python -m props.c12).", ref="3/C12"),
 }
 ALL = ["C%02d" % i for i in range(1, 21)]
 NA_REASON = "check not built yet (work in progress; see DESIGN.md section 3 for the planned design)"
